@@ -196,3 +196,83 @@ Proof.
     rewrite ?app_length, ?length_upd in *; simpl in *;
     upd_facts; rewrite ?sumf_app; unfold is_entry in *; simpl in *; eqb_cases; simpl in *; try lia.
 Qed.
+
+Lemma running_le_holders : forall s j, running_j s j <= holders s j.
+Proof.
+  intros. unfold running_j, holders.
+  pose proof (sumf_le _ (rw j) (hw j) (work s) (rw_le_hw j)). lia.
+Qed.
+
+Lemma step_runs : forall s e s', step s e = Some s' ->
+  (forall j, length (jobs s) <= j -> holders s j = 0 /\ delivered s j = 0) ->
+  (forall j x, nth_error (jobs s) j = Some x -> runs x = running_j s j + delivered s j) ->
+  (forall j x, nth_error (jobs s') j = Some x -> runs x = running_j s' j + delivered s' j).
+Proof.
+  intros s e s' H If Ir. unfold step, step_common in H.
+  destruct e; break_step H; intros jj xx Hx; unf.
+  - (* ECall *)
+    apply nth_error_snoc_cases in Hx. destruct Hx as [[Hl Hx] | [Hl Hx]]; subst.
+    + apply Ir; auto.
+    + simpl. pose proof (running_le_holders s (length (jobs s))).
+      destruct (If (length (jobs s)) (le_n _)). unfold running_j, holders, delivered in *. lia.
+  - specialize (Ir _ _ Hx). fin.
+  - specialize (Ir _ _ Hx). fin.
+  - specialize (Ir _ _ Hx). fin.
+  - specialize (Ir _ _ Hx). fin.
+  - specialize (Ir _ _ Hx). fin.
+  - specialize (Ir _ _ Hx). rewrite sumf_app. simpl. fin.
+  - specialize (Ir _ _ Hx). fin.
+  - (* EStart *)
+    destruct (Nat.eq_dec j jj).
+    + subst. erewrite nth_error_upd_eq in Hx by eauto. inversion Hx; subst. simpl.
+      specialize (Ir _ _ Heqo0). fin.
+    + rewrite nth_error_upd_ne in Hx by auto. specialize (Ir _ _ Hx). fin.
+  - (* EEnd *)
+    specialize (Ir _ _ Hx). rewrite sumf_app. unfold is_entry in *. fin.
+  - specialize (Ir _ _ Hx). fin.
+  - specialize (Ir _ _ Hx). fin.
+  - specialize (Ir _ _ Hx). fin.
+Qed.
+
+Lemma step_limit : forall s e s', step s e = Some s' -> limit s' = limit s.
+Proof.
+  intros s e s' H. unfold step, step_common in H. destruct e; break_step H; reflexivity.
+Qed.
+
+Lemma step_jobs_mono : forall s e s', step s e = Some s' ->
+  forall j x, nth_error (jobs s) j = Some x ->
+  exists x', nth_error (jobs s') j = Some x' /\ owner x' = owner x /\ panics x' = panics x.
+Proof.
+  intros s e s' H. unfold step, step_common in H.
+  destruct e; break_step H; intros jj xx Hx; unf; try (exists xx; auto; fail).
+  - exists xx. split; auto. rewrite nth_error_app1; auto. apply nth_error_Some. congruence.
+  - destruct (Nat.eq_dec j jj).
+    + subst. exists (started xx). erewrite nth_error_upd_eq by eauto.
+      rewrite Hx in Heqo0. inversion Heqo0; subst. auto.
+    + exists xx. rewrite nth_error_upd_ne by auto. auto.
+Qed.
+
+Lemma step_entries : forall s e s', step s e = Some s' ->
+  Forall (entry_ok s) (completed s) -> Forall (entry_ok s') (completed s').
+Proof.
+  intros s e s' H Ie.
+  assert (M : Forall (entry_ok s') (completed s)).
+  { eapply Forall_impl; [|exact Ie]. intros a. apply entry_ok_mono. eapply step_jobs_mono; eauto. }
+  unfold step, step_common in H.
+  destruct e; break_step H; unf; auto.
+  apply Forall_snoc; auto. exists j0. simpl. auto.
+Qed.
+
+Lemma step_wf : forall s e s', step s e = Some s' -> 1 <= limit s ->
+  Forall (fun p => p <> WSpawned) (work s) -> Forall new_d (disp s) ->
+  Forall (fun p => p <> DPanicked) (disp s) ->
+  Forall (fun p => p <> WSpawned) (work s') /\ Forall new_d (disp s') /\
+  Forall (fun p => p <> DPanicked) (disp s').
+Proof.
+  intros s e s' H L Iw Id Ip. unfold step, step_common in H.
+  destruct e; break_step H; unf; repeat split;
+    try assumption;
+    try (apply Forall_upd; [assumption | simpl; congruence || exact I]);
+    try (apply Forall_snoc; [assumption | congruence]);
+    eqb_cases; try lia.
+Qed.
